@@ -30,9 +30,9 @@ type assertFail struct{ label string }
 type desync struct{ msg string }
 
 var (
-	vals  []replayVal
-	pos   int
-	notes []string
+	vals   []replayVal
+	pos    int
+	notes  []string
 	tryMsg string
 	params map[string]int
 )
@@ -113,7 +113,7 @@ func Assert(c bool, label string) {
 	}
 }
 
-func Fail(label string) { panic(assertFail{label}) }
+func Fail(label string)  { panic(assertFail{label}) }
 func Cover(label string) {}
 func Fuel(n int)         {}
 
